@@ -15,7 +15,8 @@ LEVEL = 'proof'
 
 OBL_HEADER = '''From Coq Require Import ZArith List Bool String Lia.
 Require Import PyIR.Base.Result PyIR.IW.IW PyIR.IW.IWProps PyIR.Engine.Render PyIR.Engine.Parse
-               PyIR.Proto.Descriptor PyIR.Proto.Model PyIR.Proto.C03Check PyIR.Proto.RoundTrip PyIR.Proto.C01 PyIR.Ctl.Instance.
+               PyIR.Proto.Descriptor PyIR.Proto.Model PyIR.Proto.C03Check PyIR.Proto.RoundTrip PyIR.Proto.C01 PyIR.Ctl.Instance
+               PyIR.Ctl.InstanceChk.
 Require Import Gen.Tables Gen.P_%s.
 Import ListNotations.
 Open Scope Z_scope.
@@ -44,8 +45,10 @@ def gen_obligation(e):
     name = p['name']
     if not e['compiled']:
         return None, e['why']
-    if not ih.modelled_instance(p):
-        return None, 'decode() is overridden or the engine class is outside the instance model'
+    import instance_chk as ic
+    okm, whym = ic.modelled(p, m)
+    if not okm:
+        return None, whym
     if m['status'].get('encode') != 'ok':
         return None, m['status'].get('encode')
     pk, why = c01.first_packet(m)
@@ -81,6 +84,20 @@ def gen_obligation(e):
     out.append('Lemma fields_canonical : forall %s, %s Forall canonical (xs %s).\nProof. intros. unfold xs. canon_tac. Qed.\n' % (
         binder or '(_ : unit)', hyp, args))
     out.append('Lemma nph : Forall (fun e => e <> PLACEHOLDER) (d_rep_lead_out D_%s).\nProof. repeat constructor; discriminate. Qed.\n' % name)
+    out.append('(* the protocol\'s own checks in decode() (the regenerated decode tree; trivial when decode is not overridden) *)\n'
+               'Definition chk : list iw -> dec_model := %s.\n' % ic.chk_term(p))
+    if p['overrides_decode']:
+        xargs = ' '.join('(%s)' % protomodel.ciw(fields[nm]) for nm in order)
+        out.append('''Lemma chk_ok : forall %s, %s check_of chk (xs %s) = None.
+Proof.
+  intros. unfold check_of, chk, xs. cbv beta iota.
+  assert (exists ov, tree_eval (dec_%s %s) = DecOk ov) as [ov E] by (eexists; unfold dec_%s; dec_tac; reflexivity).
+  rewrite E. reflexivity.
+Qed.
+''' % (binder or '(_ : unit)', hyp, args, name, xargs, name))
+    else:
+        out.append('Lemma chk_ok : forall %s, %s check_of chk (xs %s) = None.\nProof. intros. reflexivity. Qed.\n' % (
+            binder or '(_ : unit)', hyp, args))
     kind = plans[1][0]
     if kind == 'marker':
         R = plans[1][1]
@@ -90,8 +107,8 @@ def gen_obligation(e):
         out.append('Lemma marker_ok : exists p, parseH 20 (d_rep_lead_in D_%s) (d_rep_lead_out D_%s) [] R = Ok p.\n'
                    'Proof. eexists. vm_compute. reflexivity. Qed.\n' % (name, name))
         seq = 'F :: repeat R n'
-        finish = ('destruct marker_ok as [p0 Hm].\n  apply (held_key_marker_sequence D_%s t 20 (xs %s) F R p0 n); '
-                  '[reflexivity|reflexivity|exact Hb|exact Hm].' % (name, args))
+        finish = ('destruct marker_ok as [p0 Hm].\n  apply (held_key_marker_sequence_chk D_%s t 20 chk (xs %s) F R p0 n); '
+                  '[reflexivity|exact Hb|apply chk_ok; assumption|exact Hm].' % (name, args))
     else:
         if any(pl != ('same', n + 1) for n, pl in enumerate(plans)):
             return None, 'inconclusive: frame plan is not uniform in repeat_count'
@@ -99,14 +116,14 @@ def gen_obligation(e):
         if nmark != 0:
             return None, 'inconclusive: full-frame repeats although a repeat marker is declared'
         seq = 'repeat F (S n)'
-        finish = ('apply (held_key_same_frame_sequence D_%s t 20 (xs %s) F n); [reflexivity|exact nph| |exact Hb].\n'
+        finish = ('apply (held_key_same_frame_sequence_chk D_%s t 20 chk (xs %s) F n); [exact nph| |exact Hb|apply chk_ok; assumption].\n'
                   '  (* a well-formed frame is not empty, the (absent) repeat marker is *)\n'
                   '  destruct Hwf as [Hne _]. intros Hz. apply Hne. destruct F; [reflexivity|discriminate Hz].' % (name, args))
     out.append('''(* every in-range assignment and every repeat count: fed in order to one fresh decoder, every frame of the sequence
    encode() emits yields the code of the encoded parameters *)
 Theorem C06_%s : forall %s (n : nat), %s
   exists t F, as_pairs (d_bursts D_%s) = Some t /\\ render_part %s = Ok F /\\
-    run_seq D_%s t 20 fresh (%s) = repeat (Ok (xs %s)) (S n).
+    run_seq_chk D_%s t 20 chk fresh (%s) = repeat (Ok (xs %s)) (S n).
 Proof.
   intros.
   destruct (exact_roundtrip D_%s 20 (xs %s) rt (pok %s) ltac:(apply fields_canonical; assumption) eq_refl)
@@ -174,9 +191,11 @@ def search(ctx, protos, per):
                     info = dict(a)
                     info['n'] = n
                     kind = bad[0]
-                    if kind.startswith('frame ') and ' of the sequence raises ' in kind:
-                        kind = 'a frame of the sequence raises ' + kind.split(' raises ')[1]
-                    ctx.report(name, kind, info, dict(protocol=name, params=a, repeat_count=n, detail=bad[1]))
+                    raised = None
+                    if ' of the sequence raises ' in kind:
+                        raised = kind.split(' raises ')[1]
+                        kind = 'a frame of the sequence is rejected'
+                    ctx.report(name, kind, info, dict(protocol=name, params=a, repeat_count=n, detail=bad[1], raised=raised))
                     break
             else:
                 ctx.passed(name, dict(a, n=4))
@@ -191,14 +210,16 @@ def run(ctx):
     results = perproto.run_obligations(ctx, 'C06', info, gen_obligation, timeout=180)
     vlib.check_props_file(ctx, 'C06')
     perproto.settle(ctx, 'C06', results, hits)
+    import instance_chk as ic
     items = []
-    for p in protos:
-        if ih.modelled_instance(p):
+    for name, e in info.items():
+        p = e['p']
+        if e['compiled'] and ic.modelled(p, e['model'])[0]:
             for seq in ih.sequences_for(p, ctx.rng, 5 if ctx.tier == 'quick' else 60):
                 items.append((p, 20, seq))
-    bad = ih.corr_instance(ctx, items)
+    bad = ic.corr_instance_chk(ctx, items)
     if bad is None:
-        ctx.report('correspondence', 'model-eval-failed', {}, dict(theorem='PyIR.Ctl.Instance.run_instance evaluation'), found_input=False)
+        ctx.report('correspondence', 'model-eval-failed', {}, dict(theorem='PyIR.Ctl.InstanceChk.run_instance_chk evaluation'), found_input=False)
         bad = []
     for (p, tol, frames), impl, model in bad:
         ctx.report(p['name'], 'instance-model-disagrees', dict(frames=len(frames)),
@@ -207,8 +228,10 @@ def run(ctx):
     ctx.cov['checker_cmd'] = vlib.COQC_CMD + ' for Gen/Tables.v, Gen/P_<p>.v, C06_<p>.v and Props/C06.v'
     ctx.cov['rule'] = ('all protocols x in-range assignments x repeat_count 0..4: the emitted sequence on one fresh decoder, and every '
                        'single frame on a decoder without history; distinct = (protocol, assignment, n)')
-    ctx.cov['trusted_base'] += ['hand-written model PyIR.Ctl.Instance of IrProtocolBase.decode with a held key (classes that do not '
-                                'override decode), tied by correspondence on frame sequences incl. other keys, garbage and damaged frames']
+    ctx.cov['trusted_base'] += ['hand-written model PyIR.Ctl.InstanceChk of IrProtocolBase.decode with a held key, for classes that do not '
+                                'override decode or override it after the common template (recognised syntactically), with the regenerated '
+                                'decode tree as the protocol check; tied by correspondence on frame sequences incl. other keys, garbage '
+                                'and damaged frames']
 
 
 def replay(path):
